@@ -1,6 +1,6 @@
 CONSTANTS
   Sigma <- SigRepl
-  MaxTok = 3
+  MaxTok = 4
   MaxStack = 80
   MaxFuel = 400
   Export = TRUE
